@@ -1628,10 +1628,16 @@ class G07:
         r = self.r
         d = self.fresh("d")
         x, t = caps[0]
-        c = r.randrange(6)
+        c = r.randrange(9)
         self.features.add("shadow:%d" % c)
         if c == 0:
             body = ["%s = %s" % (x, d), "return %s" % x]
+        elif c == 6:      # local first, then `modify` of the same name: the captured variable is written, the local stays
+            body = ["%s = %s + %s" % (x, x, d), "modify %s = %s" % (x, x), "return %s" % x]
+        elif c == 7:
+            body = ["%s = %s" % (x, d), "modify %s = %s * 2" % (x, d), "return %s" % x]
+        elif c == 8:      # `modify` first, a local of the same name afterwards
+            body = ["modify %s = %s + %s" % (x, x, d), "%s = 1" % x, "return %s + %s" % (x, d)]
         elif c == 1:
             body = ["%s = %s + %s" % (x, x, d), "return %s" % x]
         elif c == 2:
